@@ -215,7 +215,7 @@ class Sym:
         if base == "D" and name == "str":
             return ("strns", "D")
         if isinstance(base, tuple) and base[0] == "param" and name == "pattern":
-            return base  # re.Pattern.pattern of the same parameter
+            return ("patsrc", base[1])  # re.Pattern.pattern: the source text only - the flags of the compiled pattern are gone
         return ("attr", base, name)
 
     def call(self, e: ast.Call, env, assign):
@@ -307,8 +307,12 @@ class Sym:
             raise PredError("missing pattern")
         if isinstance(v, tuple) and v[0] == "param":
             return ("raw", v[1])
+        if isinstance(v, tuple) and v[0] == "patsrc":
+            return ("rawsrc", v[1])
         if isinstance(v, tuple) and v[0] == "concat":
             flat = _flatten(v)
+            if any(x[0] == "patsrc" for x in flat):
+                return ("rawsrc", next(x[1] for x in flat if x[0] == "patsrc"))
             consts = [x for x in flat if x[0] == "const"]
             params = [x for x in flat if x[0] == "param"]
             if len(params) != 1 or len(consts) + len(params) != len(flat):
